@@ -248,6 +248,18 @@ func TestVerif_C01(t *testing.T) {
 			}
 		}
 	}
+	// every string form of the catalog (integer encodings at both ends of each width, length-form
+	// boundaries, LZF) as key name: values are delivered as file bytes, key names are decoded
+	for _, ks := range append(rdbcat.Strings(), c01IntNames()...) {
+		if mine() {
+			it := rdbgen.Key(ks, rdbgen.StringVal(rdbgen.RawStr([]byte("v"), rdbgen.LCanon)), rdbgen.KeyOpts{})
+			c := c01Case{Sub: "keyform", Version: 9, Level: -1, Mode: "whole", Names: []string{it.Name + ":" + ks.Form + ":" + c01Short(ks.Val)}}
+			o := c01Run(c, []rdbgen.Item{it})
+			n++
+			nontriv++
+			ev.Outcome(o)
+		}
+	}
 	// length 2 over the full alphabet (thorough) / full x reduced both ways (quick)
 	full := len(sigma[1])
 	if ev.Thorough() {
@@ -451,4 +463,26 @@ func c01Big(exp int, sizes []int) string {
 		return fail("footer", err.Error())
 	}
 	return fmt.Sprintf("ok-%dchunks", chunks)
+}
+
+// c01IntNames: integer-encoded key names around every width boundary and sign.
+func c01IntNames() []rdbgen.Str {
+	var out []rdbgen.Str
+	for _, v := range []int64{-128, -127, -2, -1, 0, 1, 126, 127} {
+		out = append(out, rdbgen.IntStr(v, 8), rdbgen.IntStr(v, 16), rdbgen.IntStr(v, 32))
+	}
+	for _, v := range []int64{-32768, -32767, -129, 128, 255, 256, 32766, 32767} {
+		out = append(out, rdbgen.IntStr(v, 16), rdbgen.IntStr(v, 32))
+	}
+	for _, v := range []int64{-2147483648, -2147483647, -32769, 32768, 65535, 65536, 2147483646, 2147483647} {
+		out = append(out, rdbgen.IntStr(v, 32))
+	}
+	return out
+}
+
+func c01Short(b []byte) string {
+	if len(b) > 16 {
+		return fmt.Sprintf("%q..(%d)", b[:16], len(b))
+	}
+	return fmt.Sprintf("%q", b)
 }
